@@ -1024,6 +1024,7 @@ def single_traits():
             "(Tuple (RangeF 0 8 0 0) (Enum (s a) (s yes)))", "(Tuple (Tuple Int Int) Str)",
             "(Tuple (Instance (u 2) 1 0 N) (Callable 1))", "(Tuple (Base Int) (RangeI 0 2 0 0))",
             "(Tuple Bool Complex)", "(Tuple (Either 1 Int Str) Float)", "(Tuple (CastH float) (CoerceH int))",
+            "(Tuple (Instance (u 2) 1 2 N) Int)", "(Union (Instance (u 2) 0 2 N) Str)",
             "(BaseTuple Int Int)", "(BaseTuple Float Str)", "(BaseTuple (Tuple Int Int) Str)"]
     for c in ("(u 2)", "(u 0)"):
         for an in "01":
@@ -1062,7 +1063,7 @@ LEAVES = ["Int", "Float", "Complex", "Str", "Bytes", "Bool", "CInt", "CFloat", "
           "(RangeF 0 8 0 0)", "(RangeF -4 8 1 1)", "(RangeF N 0 0 1)", "(RangeF 0 N 1 0)", "(RangeI 0 2 0 0)",
           "(RangeI -1 N 1 0)", "(Enum (i 1) (i 2) (i 3))", "(Enum (s a) (s yes) N)", "(Enum (f 4) (t (i 1) (i 2)))",
           "(Map ((s yes) (i 1)) ((s no) (i 0)))", "(Instance (u 2) 1 0 N)", "(Instance (u 2) 0 0 N)",
-          "(Instance (u 2) 0 1 N)", "(Instance (u 2) 1 2 N)", "(Instance int 0 0 N)", "(Instance (u 0) 0 0 N)",
+          "(Instance (u 2) 0 1 N)", "(Instance int 0 0 N)", "(Instance (u 0) 0 0 N)",
           "(This 0)", "(This 1)", "(Callable 1)", "(Callable 0)", "Module", "(Type (u 2) 0)", "(Type object 1)",
           "(String 1 3 N)", "(String 0 N 0)", "(PrefixList yes no yellow)", "(Base Int)", "(Base Float)",
           "(Base Str)", "(Base (Enum (i 1) (i 2)))", "TupleAny", "(Base (Callable 1))", "Any",
